@@ -560,7 +560,8 @@ def run_property(prop, harnesses, tier, meta, only=None, workers=None, mem_total
         # without a warm cache, run the first harness of each build alone so that its target dir
         # (compiled dependencies) can be cloned for the other workers
         first = {}
-        for h in hs:
+        for h in sorted(hs, key=lambda x: (x.timeout, x.mem_gb)):
+            # the probe of a build is its cheapest query (it runs alone)
             first.setdefault(h.build, h)
         done = []
         broken = {}
